@@ -34,8 +34,10 @@ CLAIMS = {
         "n1, n2 and all arguments in any field: it is the binomial double sum against the Gaussian moments, is symmetric "
         "under exchanging the two functions, has K00 = 1 and satisfies the Obara-Saika recurrences in both indices "
         "(a complete algebraic characterisation of the Gaussian overlap integrals); K(n,n) at coincident centres and "
-        "the rational part of the normalisation N^2 * <g|g> = 1; and over the reals (Mathlib), when present in "
-        "Props/C06.lean, kernel_eq_integral. Assembly: exchange of the two shells transposes every Cartesian block "
+        "the rational and pi parts of the normalisation N^2 * <g|g> = 1; and over the reals (Mathlib) kernel_eq_integral: "
+        "for a, b > 0 the integral of (x-A)^n1 (x-B)^n2 exp(-a(x-A)^2 - b(x-B)^2) equals "
+        "exp(-ab/(a+b)(A-B)^2) sqrt(pi/(a+b)) kernel n1 n2 (P-A) (P-B) (2(a+b)) for all n1, n2 (Gaussian moments from "
+        "Mathlib's Gamma-function integrals). Assembly: exchange of the two shells transposes every Cartesian block "
         "(including screening decisions), only centre differences enter, identical bases give a symmetric matrix, two "
         "bases transpose, conventions act as the C10 signed permutation on rows and columns, non-L2 / missing geometry "
         "are rejected with ValueError / TypeError. The Cartesian->pure tables l<=7 (regenerated from source each run as "
